@@ -106,8 +106,8 @@ fn regression_items() -> Vec<WidthCase> {
 }
 
 pub fn property() -> Property {
-    let g = G::default().depth(3);
-    let g2 = G::default().depth(2);
+    let g = G::default().depth(3).with_digit_sup();
+    let g2 = G::default().depth(2).with_digit_sup();
     Property {
         id: "C02",
         level: "exploration",
